@@ -1,9 +1,149 @@
-(** C10 — exported statements only. *)
-From Coq Require Import ZArith List Bool Arith.
+(** C10 — Oracle prices are the power-weighted median of a sufficient quorum.
+    Exported statements only; every proof is [exact <lemma>].  Model: Nib.C10.Model (exact LegacyDec
+    arithmetic); [true] selects the current code, [false] the code before commit d9ae51e. *)
+From Coq Require Import ZArith List Bool Arith Permutation.
 Import ListNotations.
 Require Import Nib.Lib.Dec Nib.C10.Model Nib.C10.Spec Nib.C10.Proofs.
 Local Open Scope Z_scope.
 
+(** FULL STATEMENT.  For every staking situation with non-negative powers, every Votes store, whitelist,
+    stored rates, height and parameters in the overflow-free domain: the EndBlocker outcome satisfies P
+    (outside a period end nothing changes; at a period end it completes without panic, a pair gets a
+    price-update event and a new store entry (pair, rate, height) iff it has quorum, the rate is a
+    weighted median in the sense of [is_median], and every other stored rate is kept iff it is not
+    expired, exactly). *)
+Theorem C10_holds_for_every_input :
+  forall p st h, wf st -> P p st h (end_block true p st h).
+Proof. exact end_block_holds. Qed.
+Print Assumptions C10_holds_for_every_input.
+
+(** A pair's rate is replaced iff the pair is whitelisted and its votes carry power <> 0, at least
+    RoundInt(VoteThreshold * bonded power), from at least MinVoters positive-rate votes; holds for every
+    input on which the update completes (no domain condition). *)
+Theorem C10_replaced_iff_quorum :
+  forall p st h rs evs, update true p st h = Done rs evs ->
+  forall pr, (In pr (map fst evs) <-> quorum p st pr) /\
+             (quorum p st pr -> In (mkRate pr (wmedian true (pair_votes st pr)) h) rs /\
+                                In (pr, wmedian true (pair_votes st pr)) evs) /\
+             (~ quorum p st pr -> forall e, r_pair e = pr -> In e rs -> In e (rates st)).
+Proof. exact replaced_iff_quorum. Qed.
+Print Assumptions C10_replaced_iff_quorum.
+
+(** The threshold actually applied is within half a unit of power of VoteThreshold * bonded power
+    (banker's rounding): this is the exact sense of "at least VoteThreshold of the bonded power". *)
+Theorem C10_threshold_within_half_unit :
+  forall p B, 2 * Z.abs (threshold_power p B * PREC - p_threshold p * B) <= PREC.
+Proof. exact threshold_within_half_unit. Qed.
+Print Assumptions C10_threshold_within_half_unit.
+
+(** The published rate is positive and is a tuple submitted by an eligible (bonded, within
+    MaxValidators) validator of positive power — for every total power, including 1 (after d9ae51e). *)
+Theorem C10_median_is_submitted_positive_rate :
+  forall p st pr, wf st -> quorum p st pr ->
+  let m := wmedian true (pair_votes st pr) in
+  0 < m /\ exists a pw, In a (votes st) /\ In (pr, m) (a_tuples a) /\
+                        perf_power (eligible st) (a_voter a) = Some pw /\ 0 < pw.
+Proof. exact median_submitted. Qed.
+Print Assumptions C10_median_is_submitted_positive_rate.
+
+(** Balance: at most half of the voting power strictly below the median, at most half (rounded up)
+    strictly above it; true as stated in the property, for every total power > 0. *)
+Theorem C10_median_balance :
+  forall vs, nonneg vs -> 0 < total_power vs -> is_median vs (wmedian true vs).
+Proof. exact wmedian_is_median. Qed.
+Print Assumptions C10_median_balance.
+
+(** Sharper: it is the LOWEST submitted positive-power rate whose cumulative power reaches floor(T/2);
+    this determines it uniquely. *)
+Theorem C10_median_is_lowest :
+  forall vs, nonneg vs -> 0 < total_power vs -> is_low_median vs (wmedian true vs).
+Proof. exact wmedian_is_low_median. Qed.
+Print Assumptions C10_median_is_lowest.
+
+(** Go's unstable sort.Sort is irrelevant: any two sorted arrangements of the same votes give the same
+    result of the loop; and the median does not depend on the order of the Votes store at all. *)
+Theorem C10_median_sort_invariant :
+  forall l l', Permutation l l' -> sorted l -> sorted l' -> nonneg l ->
+  wmedian_loop true (total_power l / 2) 0 l = wmedian_loop true (total_power l' / 2) 0 l'.
+Proof. exact loop_sort_invariant. Qed.
+Print Assumptions C10_median_sort_invariant.
+
+Theorem C10_median_permutation_invariant :
+  forall vs vs', Permutation vs vs' -> nonneg vs -> wmedian true vs = wmedian true vs'.
+Proof. exact wmedian_perm. Qed.
+Print Assumptions C10_median_permutation_invariant.
+
+(** Votes of ineligible validators (unbonded, beyond MaxValidators, unknown), votes for non-whitelisted
+    pairs and abstentions have no influence: deleting all of them leaves the outcome (store, events,
+    panic or not) unchanged; two stores that agree on the relevant votes give the same outcome. *)
+Theorem C10_irrelevant_votes_no_influence :
+  forall p st h, wf st -> in_range (threshold_raw p (bonded_power st)) = true ->
+  update true p (strip st) h = update true p st h.
+Proof. exact strip_no_influence. Qed.
+Print Assumptions C10_irrelevant_votes_no_influence.
+
+Theorem C10_same_relevant_votes_same_outcome :
+  forall p st1 st2 h, wf st1 ->
+  validators st2 = validators st1 -> max_validators st2 = max_validators st1 ->
+  bonded_tokens st2 = bonded_tokens st1 -> power_reduction st2 = power_reduction st1 ->
+  whitelist st2 = whitelist st1 -> rates st2 = rates st1 ->
+  votes (strip st2) = votes (strip st1) ->
+  in_range (threshold_raw p (bonded_power st1)) = true ->
+  end_block true p st2 h = end_block true p st1 h.
+Proof. exact irrelevant_votes_no_influence. Qed.
+Print Assumptions C10_same_relevant_votes_same_outcome.
+
+(** Over histories of consecutive blocks (arbitrary validator sets, votes, whitelists per block): a stored
+    rate whose pair never reaches quorum survives exactly until the first vote-period end at height
+    >= created + ExpirationBlocks. *)
+Theorem C10_expiry_exact :
+  forall p e, no_wrap p e -> forall bs rs h rs',
+  (forall b rs0, In b bs -> ~ quorum p (mk_state b rs0) (r_pair e)) ->
+  run p rs h bs = Some rs' -> In e rs ->
+  (In e rs' <-> forall k, (k < length bs)%nat ->
+                          is_period_last (h + Z.of_nat k) (p_vote_period p) = true ->
+                          h + Z.of_nat k < r_created e + p_expiration p).
+Proof. exact expiry_exact. Qed.
+Print Assumptions C10_expiry_exact.
+
+(** Inside the domain the update never panics. *)
+Theorem C10_no_panic_in_domain :
+  forall p st h, wf st -> domain p st h = true -> update true p st h <> Panic.
+Proof. exact update_no_panic. Qed.
+Print Assumptions C10_no_panic_in_domain.
+
+(** The boolean checker evaluated on implementation traces is sound for P. *)
 Theorem C10_checker_sound : forall p st h obs, Pb p st h obs = true -> P p st h obs.
 Proof. exact Pb_sound. Qed.
 Print Assumptions C10_checker_sound.
+
+(** The code before d9ae51e violates the property (two validators of power 1, one votes 5.0, one
+    abstains: 0 is published), and there an abstention does influence the outcome. *)
+Theorem C10_refuted_before_fix :
+  exists p st h, wf st /\ domain p st h = true /\ ~ P p st h (end_block false p st h).
+Proof. exact refuted_before_fix. Qed.
+Print Assumptions C10_refuted_before_fix.
+
+Theorem C10_abstain_influence_refuted_before_fix :
+  exists p st h, wf st /\ update false p (strip st) h <> update false p st h.
+Proof. exact abstain_influence_before_fix. Qed.
+Print Assumptions C10_abstain_influence_refuted_before_fix.
+
+(** Outside the domain the CURRENT code misbehaves (parameter values accepted by Params.Validate /
+    rates accepted by the Dec codec): uint64 wrap of created + ExpirationBlocks drops a fresh rate;
+    a median near the Dec limit and a huge VoteThreshold make EndBlock panic. *)
+Theorem C10_expiry_wraps_outside_domain :
+  exists p st h e, wf st /\ In e (rates st) /\ ~ expired_at p e h /\ ~ quorum p st (r_pair e) /\
+                   end_block true p st h = Done [] [].
+Proof. exact expiry_wraps_outside_domain. Qed.
+Print Assumptions C10_expiry_wraps_outside_domain.
+
+Theorem C10_tally_panics_outside_domain :
+  exists p st h, wf st /\ quorum p st 0%nat /\ end_block true p st h = Panic.
+Proof. exact tally_panics_outside_domain. Qed.
+Print Assumptions C10_tally_panics_outside_domain.
+
+Theorem C10_threshold_panics_outside_domain :
+  exists p st h, wf st /\ end_block true p st h = Panic.
+Proof. exact threshold_panics_outside_domain. Qed.
+Print Assumptions C10_threshold_panics_outside_domain.
